@@ -196,7 +196,18 @@ func (e *Entry) Modules() *Modules {
 	for e.Parent != nil {
 		e = e.Parent
 	}
-	return e.Node.(*Module).Modules
+	// The root of a schema tree is a module.  Entries that are kept beside
+	// the tree (deviations, deviate statements, the groupings recorded for
+	// uses statements) have no parent: go by the module their node is in.
+	if m, ok := e.Node.(*Module); ok {
+		return m.Modules
+	}
+	if e.Node != nil {
+		if m := RootNode(e.Node); m != nil {
+			return m.Modules
+		}
+	}
+	return nil
 }
 
 // IsDir returns true if e is a directory.
@@ -1407,7 +1418,7 @@ func (e *Entry) Find(name string) *Entry {
 					mod.NName(), e.Path()))
 				return nil
 			}
-			if m != e.Node.(*Module) {
+			if rm, ok := e.Node.(*Module); !ok || m != rm {
 				e = ToEntry(m)
 			}
 		}
@@ -1519,7 +1530,11 @@ func (e *Entry) InstantiatingModule() (string, error) {
 		return "", fmt.Errorf("entry %s had nil namespace", e.Name)
 	}
 
-	module, err := e.Modules().FindModuleByNamespace(n.Name)
+	ms := e.Modules()
+	if ms == nil {
+		return "", fmt.Errorf("entry %s is not part of a module", e.Name)
+	}
+	module, err := ms.FindModuleByNamespace(n.Name)
 	if err != nil {
 		return "", fmt.Errorf("could not find module %q when retrieving namespace for %s: %v", n.Name, e.Name, err)
 	}
